@@ -97,9 +97,9 @@ type vf07Msg struct {
 	Exts    []vf07Ext
 	// length overrides, <0 = consistent
 	SIDLenOv, SuitesLenOv, CompLenOv, ExtsLenOv, HsLenOv, RecLenOv int
-	Trailing                                                        []byte
-	CutAt                                                           int      // >=0: truncate the serialised record
-	Flips                                                           [][2]int // (position permille, value)
+	Trailing                                                       []byte
+	CutAt                                                          int      // >=0: truncate the serialised record
+	Flips                                                          [][2]int // (position permille, value)
 }
 
 func vf07ParseRec(rec []byte) *vf07Msg {
